@@ -352,6 +352,27 @@ def check(run: Run) -> None:
                        "expected": "a value or an error"}]})
     n_templates = len(items)
 
+    # ---- a count that names an earlier FIELD is evaluated over the fields, also when a constant of that name exists (constants are the fall back) ----
+    SHADOW = [("#define n 4\nstruct main { uint8 n; uint8 a[n]; uint8 tail; };", lambda d: d[0]),
+              ("#define n 4\n#define K 2\nstruct main { uint8 n; uint8 a[n + K]; uint8 tail; };", lambda d: d[0] + 2),
+              ("#define n 4\nstruct main { uint8 m; uint8 a[n]; uint8 tail; };", lambda d: 4),                    # no field n before the array: the constant
+              ("#define n 4\nstruct main { uint8 m; uint8 a[n]; uint8 n; };", lambda d: 4),                       # the field n comes later
+              ("#define len 3\nstruct main { uint8 len; char a[len]; uint8 tail; };", lambda d: d[0]),
+              ("#define n 4\nstruct main { uint8 n; uint16 a[n][2]; uint8 tail; };", lambda d: d[0])]
+    for text, want_len in SHADOW:
+        for compiled in (False, True):
+            cs = structs.load(text, compiled=compiled)
+            for first in (0, 1, 2, 5):
+                n_oracle += 1
+                d = bytes([first]) + bytes(range(1, 40))
+                r = structs.parse(cs, "main", d, 0)
+                got = len(r[1].a) if r[0] == "ok" else repr(r[1])
+                if got != want_len(d):
+                    failures += 1
+                    run.report("C07/count-over-fields", {"definition": text, "cstruct_kwargs": {"endian": "<", "pointer": None}, "load_kwargs": {"compiled": compiled, "align": False},
+                               "ops": [{"op": "parse", "data": d.hex(), "observed": f"{got} elements", "expected": f"{want_len(d)} elements: the count is evaluated over the fields parsed before the array, constants are the fall back"}]})
+                    break
+
     # ---- random definitions rich in arrays ----
     for _ in range(900 if thorough else 150):
         c = F.gen_case(rng, depth=2, bits=False, unions=False, max_fields=6)
